@@ -82,6 +82,9 @@ def run_mutation(pid, mut, repo):
             if mut.get('site'):
                 hit = [x for x in hit if mut['site'] in x[1] or mut['site'] in x[2]]
             res['status'] = 'caught' if hit else 'MISSED'
+            if not hit and mut.get('accept_undecided') and v['UNDECIDED']:
+                # the engine refuses to pass the variant (exit 2) but cannot name a wrapping input
+                res['status'] = 'refused(undecided)'
             if rep.broken and not hit:
                 res['status'] = 'MISSED(broken)'
         else:
